@@ -95,6 +95,12 @@ func (w *world) registerShort(s *subject, p vpSpec, d time.Duration, kind string
 	return e
 }
 
+// maybeExpired: short-lived for real, and the run has not yet waited until its expiry is certain while its last second may have
+// begun: both "still listed" and "gone" are what a correct node may show (evaluate AFTER the observation it excuses).
+func (e *entry) maybeExpired() bool {
+	return !e.realExp.IsZero() && !e.aged && time.Now().After(e.realExp.Add(-1500*time.Millisecond))
+}
+
 func (w *world) shortValidity() time.Duration {
 	return time.Duration(4000+w.rnd.Intn(2000)) * time.Millisecond
 }
